@@ -225,6 +225,16 @@ def r122(rep: Report, ctx: Ctx) -> None:
            "sequencing", ok, fi=conv, node=loops[0] if loops else conv.node,
            detail="one loop over the whole stream, no early exit, eager "
                   "(not a generator)")
+    st = [x for x in ast.walk(conv.node) if isinstance(x, ast.Assign)
+          and isinstance(x.targets[0], ast.Subscript)]
+    lv = loops[0].target.id if loops and isinstance(
+        loops[0].target, ast.Name) else "?"
+    ok = len(st) == 1 and unparse(st[0].targets[0].slice) == \
+        f"{lv}.event_id" and unparse(st[0].value) == lv and not enclosing(
+            conv.node, st[0], (ast.If,))
+    rep.ob("R12.2", "every span of the trace enters the map under its own "
+           "id", ok, fi=conv, node=st[0] if st else conv.node,
+           detail=unparse(st[0])[:80] if st else "<missing>")
     saver = ctx.func("save_pv_event_stream_to_file")
     p = "pv_event_stream"
     uses = [n for n in ast.walk(saver.node) if isinstance(n, ast.Name)
